@@ -2,7 +2,7 @@
    Proofs/GraphP*.v. *)
 From Coq Require Import ZArith Bool List.
 Import ListNotations.
-From Verif Require Import Model.Val Model.Graph Proofs.GraphPBase Proofs.GraphPDfs Proofs.GraphPTopo Proofs.GraphPDep Proofs.GraphPBfs Proofs.GraphPLong Proofs.GraphPEx Proofs.GraphPMon.
+From Verif Require Import Model.Val Model.Graph Proofs.GraphPBase Proofs.GraphPDfs Proofs.GraphPTopo Proofs.GraphPDep Proofs.GraphPBfs Proofs.GraphPLong Proofs.GraphPEx Proofs.GraphPMon Proofs.GraphPRm.
 Open Scope Z_scope.
 
 (* every graph the constructor can build is well-formed; the constructor never raises *)
@@ -173,15 +173,36 @@ Theorem C17_monitor_dependent : forall m u v tag b, mon (MDep m u v tag b) = tru
   exists g, of_mapping m = Ok g /\ tag = 0 /\ (b = 1 <-> reachp g u v \/ reachp g v u).
 Proof. exact mon_MDep_spec. Qed.
 Print Assumptions C17_monitor_dependent.
-(* the path-enumeration reference (graphs of <= 9 nodes); the relaxation reference used on larger graphs
-   (mon_longest_by false, MCrit) is NOT proved equivalent: partial *)
-Theorem C17_monitor_longest_partial : forall g, wf g -> forall w, (forall n, 0 <= w n) -> acyclic g -> forall p,
-  mon_longest_by true w g p = true <->
+(* both references of the maximum path weight (path enumeration on graphs of <= 9 nodes, n rounds of
+   relaxation over a table on larger ones) decide the statement of C17_longest_path *)
+Theorem C17_monitor_longest : forall g, wf g -> forall w, (forall n, 0 <= w n) -> acyclic g -> forall enum p,
+  mon_longest_by enum w g p = true <->
   gpath g p /\ (forall u, ~ edge g u (hd 0 p)) /\ (forall v, ~ edge g (last p 0) v) /\
   forall q, gpath g q -> sum_w w q <= sum_w w p.
 Proof. exact mon_longest_enum_spec. Qed.
-Print Assumptions C17_monitor_longest_partial.
+Print Assumptions C17_monitor_longest.
+Theorem C17_monitor_critical : forall m wt z, (forall n, 0 <= w_of wt n) -> mon (MCrit m wt z) = true ->
+  exists g, of_mapping m = Ok g /\ (acyclic g -> nodes g <> [] ->
+    (exists p, gpath g p /\ sum_w (w_of wt) p = z) /\ forall q, gpath g q -> sum_w (w_of wt) q <= z).
+Proof. exact mon_MCrit_spec. Qed.
+Print Assumptions C17_monitor_critical.
 Theorem C17_monitor_depth : forall m n d, mon (MDepth m n d) = true ->
   exists g, of_mapping m = Ok g /\ (acyclic g -> In n (nodes g) -> get_node_depth g n true = Ok d).
 Proof. exact mon_MDepth_spec. Qed.
 Print Assumptions C17_monitor_depth.
+
+(* the graph stays well-formed under add_child / add_node (JobGraph.add_job, add_child of the loader) *)
+Theorem C17_add_child_wf : forall g n c g', wf g -> add_child g n c = Ok g' -> wf g'.
+Proof. exact wf_add_child. Qed.
+Print Assumptions C17_add_child_wf.
+Theorem C17_add_node_wf : forall g n cs, wf g -> exists g', add_node g n cs = Ok g' /\ wf g'.
+Proof. exact add_node_ok. Qed.
+Print Assumptions C17_add_node_wf.
+(* Graph.remove (dead code: only TaskGraph.clean calls it) does NOT keep the graph well-formed: the removed
+   node stays in its parents' children lists and the traversals raise *)
+Theorem C17_remove_not_wf_refuted :
+  exists g n g', wf g /\ remove_node g n = Ok g' /\ ~ wf g' /\
+    topological_sort g' = Err E_KEY /\ depth_first g' None = ([0; 2; 1], E_VALUE) /\
+    breadth_first g' None = ([], E_VALUE).
+Proof. exact remove_not_wf_refuted. Qed.
+Print Assumptions C17_remove_not_wf_refuted.
